@@ -186,6 +186,53 @@ theorem scanFirst_spec (test : α → Bool) :
       · rfl
       · simp only [List.length_cons]; congr 1; omega
 
+/-- exact match among the candidates of one type: positions are those of the whole vector -/
+theorem scanFirst_filter_spec (test keep : α → Bool) :
+    ∀ (xs : List α) (j : Nat),
+      scanFirst test ((indexedFrom j xs).filter fun p => keep p.2) =
+        if xs.all (fun x => !(keep x && test x)) then none
+        else some (j + (xs.takeWhile fun x => !(keep x && test x)).length)
+  | [], j => by simp [indexedFrom, scanFirst]
+  | x :: xs, j => by
+    have ih := scanFirst_filter_spec test keep xs (j + 1)
+    by_cases hk : keep x = true
+    · by_cases ht : test x = true
+      · simp [indexedFrom, hk, scanFirst, ht]
+      · have ht' : test x = false := by simpa using ht
+        simp only [indexedFrom, List.filter, hk, scanFirst, ht', ih, Bool.false_eq_true, if_false,
+          List.all_cons, Bool.and_false, Bool.not_false, Bool.true_and, List.takeWhile]
+        split
+        · rfl
+        · simp only [List.length_cons]; congr 1; omega
+    · have hk' : keep x = false := by simpa using hk
+      simp only [indexedFrom, List.filter, hk', ih, List.all_cons, Bool.false_and, Bool.not_false,
+        Bool.true_and, List.takeWhile]
+      split
+      · rfl
+      · simp only [List.length_cons]; congr 1; omega
+
+
+/-- the element after the longest prefix satisfying `q` fails `q`; everything before satisfies it -/
+theorem takeWhile_first (q : α → Bool) : ∀ (l : List α), l.all q = false →
+    (∃ k, l[(l.takeWhile q).length]? = some k ∧ q k = false) ∧
+    ∀ i k, i < (l.takeWhile q).length → l[i]? = some k → q k = true
+  | [], h => by simp at h
+  | x :: xs, h => by
+    by_cases hx : q x = true
+    · have hxs : xs.all q = false := by simpa [List.all_cons, hx] using h
+      obtain ⟨⟨k, hk1, hk2⟩, hall⟩ := takeWhile_first q xs hxs
+      refine ⟨⟨k, ?_, hk2⟩, ?_⟩
+      · simpa [List.takeWhile, hx] using hk1
+      · intro i k' hi hk'
+        simp only [List.takeWhile, hx, List.length_cons] at hi
+        cases i with
+        | zero => simp at hk'; rw [← hk']; exact hx
+        | succ i => exact hall i k' (by omega) (by simpa using hk')
+    · have hx' : q x = false := by simpa using hx
+      refine ⟨⟨x, by simp [List.takeWhile, hx'], hx'⟩, ?_⟩
+      intro i k hi
+      simp [List.takeWhile, hx'] at hi
+
 /-! ### wildcards -/
 
 theorem wmatch_star (s : List Char) : wmatch [.any] s = true := by
